@@ -266,6 +266,25 @@ pub fn check_stdfs_twin_prog(prog: &[Op]) -> CaseResult {
         for op_t in prog {
             let op = sub(op_t);
             let out = if wrapped { apply_h(&vfs, &op, &mut handles) } else { apply_h(&direct, &op, &mut handles) };
+            // the trait implementation on the unit struct answers what the associated function answers
+            if !wrapped && acc.is_none() {
+                let assoc: Option<Out> = match &op {
+                    Op::Exists(p) => Some(Out::Bool(Stdfs::exists(p))),
+                    Op::IsDir(p) => Some(Out::Bool(Stdfs::is_dir(p))),
+                    Op::IsFile(p) => Some(Out::Bool(Stdfs::is_file(p))),
+                    Op::IsSymlink(p) => Some(Out::Bool(Stdfs::is_symlink(p))),
+                    Op::IsSymlinkDir(p) => Some(Out::Bool(Stdfs::is_symlink_dir(p))),
+                    Op::IsSymlinkFile(p) => Some(Out::Bool(Stdfs::is_symlink_file(p))),
+                    Op::IsExec(p) => Some(Out::Bool(Stdfs::is_exec(p))),
+                    Op::IsReadonly(p) => Some(Out::Bool(Stdfs::is_readonly(p))),
+                    _ => None,
+                };
+                if let Some(a) = assoc {
+                    if a != out {
+                        acc = Some(format!("{:?}: trait method on the Stdfs value gives {:?}, the associated function Stdfs::{} gives {:?}", op_t, out, op.name(), a));
+                    }
+                }
+            }
             // entry accessors through the wrapper
             if wrapped && acc.is_none() {
                 if let Op::Entry(p) = &op {
@@ -305,7 +324,10 @@ pub fn check_stdfs_twin_prog(prog: &[Op]) -> CaseResult {
         let _ = std::fs::remove_dir_all(&root);
         (obs, acc)
     };
-    let (a, _) = run(false);
+    let (a, acc0) = run(false);
+    if let Some(d) = acc0 {
+        return Err(Failure::new("trait-impl-differs-from-associated-function|stdfs", d));
+    }
     let (b, acc) = run(true);
     if let Some(d) = acc {
         return Err(Failure::new("entry|accessor-differs-through-VfsEntry|stdfs", d));
